@@ -184,6 +184,11 @@ pub fn build(parent: &[usize], assign: &[u8], chunking: Chunking, embedded: bool
     (arena, ids)
 }
 
+/// trailing blanks are not part of the property: compare lines without them
+pub fn rstrip_lines(s: &str) -> String {
+    s.split('\n').map(|l| l.trim_end_matches(' ')).collect::<Vec<_>>().join("\n")
+}
+
 pub fn render_real(arena: &Arena<Txt>, id: NodeId, mode: usize) -> String {
     let p = id.debug_pretty_print(arena);
     match mode {
@@ -276,7 +281,7 @@ pub fn run(max_n: usize, full_n: usize, k: usize) -> PpResult {
                                 if children_of(parent, start).is_empty() == false {
                                     distinct.insert(crate::obs::hash64(&(mode, &expected)));
                                 }
-                                if got.as_ref().ok() != Some(&expected) && mm.len() < 4 {
+                                if got.as_ref().ok().map(|g| rstrip_lines(g)) != Some(rstrip_lines(&expected)) && mm.len() < 4 {
                                     mm.push(Mismatch {
                                         parent: parent.clone(),
                                         assign: assign.clone(),
